@@ -2091,14 +2091,17 @@ func marshalTuple(info TypeInfo, value interface{}) ([]byte, error) {
 	return nil, marshalErrorf("cannot marshal %T into %s", value, tuple)
 }
 
-func readBytes(p []byte) ([]byte, []byte) {
+func readBytes(p []byte) ([]byte, []byte, error) {
 	// TODO: really should use a framer
 	size := readInt(p)
 	p = p[4:]
 	if size < 0 {
-		return nil, p
+		return nil, p, nil
 	}
-	return p[:size], p[size:]
+	if int(size) > len(p) {
+		return nil, nil, unmarshalErrorf("unmarshal: field of %d bytes in a value with %d bytes left", size, len(p))
+	}
+	return p[:size], p[size:], nil
 }
 
 // currently only support unmarshal into a list of values, this makes it possible
@@ -2116,7 +2119,10 @@ func unmarshalTuple(info TypeInfo, data []byte, value interface{}) error {
 			// each element inside data is a [bytes]
 			var p []byte
 			if len(data) >= 4 {
-				p, data = readBytes(data)
+				var rerr error
+				if p, data, rerr = readBytes(data); rerr != nil {
+					return rerr
+				}
 			}
 			err := Unmarshal(elem, p, v[i])
 			if err != nil {
@@ -2145,7 +2151,10 @@ func unmarshalTuple(info TypeInfo, data []byte, value interface{}) error {
 		for i, elem := range tuple.Elems {
 			var p []byte
 			if len(data) >= 4 {
-				p, data = readBytes(data)
+				var rerr error
+				if p, data, rerr = readBytes(data); rerr != nil {
+					return rerr
+				}
 			}
 
 			v, err := elem.NewWithError()
@@ -2182,7 +2191,10 @@ func unmarshalTuple(info TypeInfo, data []byte, value interface{}) error {
 		for i, elem := range tuple.Elems {
 			var p []byte
 			if len(data) >= 4 {
-				p, data = readBytes(data)
+				var rerr error
+				if p, data, rerr = readBytes(data); rerr != nil {
+					return rerr
+				}
 			}
 
 			v, err := elem.NewWithError()
@@ -2331,7 +2343,10 @@ func unmarshalUDT(info TypeInfo, data []byte, value interface{}) error {
 			}
 
 			var p []byte
-			p, data = readBytes(data)
+			var rerr error
+			if p, data, rerr = readBytes(data); rerr != nil {
+				return rerr
+			}
 			if err := v.UnmarshalUDT(e.Name, e.Type, p); err != nil {
 				return err
 			}
@@ -2374,7 +2389,10 @@ func unmarshalUDT(info TypeInfo, data []byte, value interface{}) error {
 			val := reflect.New(valType)
 
 			var p []byte
-			p, data = readBytes(data)
+			var rerr error
+			if p, data, rerr = readBytes(data); rerr != nil {
+				return rerr
+			}
 
 			if err := Unmarshal(e.Type, p, val.Interface()); err != nil {
 				return err
@@ -2424,7 +2442,10 @@ func unmarshalUDT(info TypeInfo, data []byte, value interface{}) error {
 		}
 
 		var p []byte
-		p, data = readBytes(data)
+		var rerr error
+		if p, data, rerr = readBytes(data); rerr != nil {
+			return rerr
+		}
 
 		f, ok := fields[e.Name]
 		if !ok {
